@@ -65,8 +65,34 @@ def vocab_from_seed(vseed):
     return _VC[key]
 
 
+_DEFS = []
+
+
+def defs_context():
+    """Default walker database plus, in an automatically named category placed first, a minimal
+    \\newcommand-like macro: \\defmacro{name} defines \\name (one mandatory argument) for the rest of the
+    current scope through ParsingStateDeltaExtendLatexContextDb -- the documented way for a document to
+    extend the context while it is parsed."""
+    if not _DEFS:
+        from pylatexenc.latexwalker import get_default_latex_context_db
+        from pylatexenc.macrospec import MacroSpec, EnvironmentSpec, ParsingStateDeltaExtendLatexContextDb
+
+        def after_delta(parsed_node, latex_walker, **kwargs):
+            name = parsed_node.nodeargd.argnlist[0].latex_verbatim().strip('{} ')
+            return ParsingStateDeltaExtendLatexContextDb(
+                extend_latex_context=dict(macros=[MacroSpec(name, '{')],
+                                          environments=[EnvironmentSpec(name + 'env', '[')]))
+        db = get_default_latex_context_db()
+        db.add_context_category(None, macros=[MacroSpec('defmacro', '{', make_after_parsing_state_delta=after_delta)],
+                                prepend=True)
+        _DEFS.append(db)
+    return _DEFS[0]
+
+
 def ctx_for(desc):
-    """Context database for a case description ({'vocab': 'default'} or custom with vseed)."""
+    """Context database for a case description ({'vocab': 'default'}, 'defs', or custom with vseed)."""
     if not desc or desc.get('vocab', 'default') == 'default':
         return None
+    if desc.get('vocab') == 'defs':
+        return defs_context()
     return vocab_from_seed(desc['vseed'])[1]
